@@ -300,3 +300,7 @@ def strategy(tier):
 
 def n_random(tier):
     return 4800 if tier == "quick" else 100000
+
+
+def files(case):
+    return {"main.ms": ms.program(PRELUDE + [("print", S("@start"))] + case["stmts"] + [("print", S("@end"))])[0]}
